@@ -514,3 +514,21 @@ func readOnlyUse(v ssa.Value, r ssa.Instruction) (bool, string) {
 	}
 	return false, fmt.Sprintf("shared value used by %T", r)
 }
+
+// isPublicFn: callable from outside the module — an exported package-level function, or an exported method of an
+// exported type (an exported method name on an unexported type is a helper).
+func isPublicFn(f *ssa.Function) bool {
+	if f == nil || f.Object() == nil || !f.Object().Exported() {
+		return false
+	}
+	if recv := f.Signature.Recv(); recv != nil {
+		t := recv.Type()
+		if p, ok := t.Underlying().(*types.Pointer); ok {
+			t = p.Elem()
+		}
+		if nt, ok := t.(*types.Named); ok && !nt.Obj().Exported() {
+			return false
+		}
+	}
+	return true
+}
